@@ -214,11 +214,19 @@ func runC04Par(c c04ParCase) (*vh.Violation, vh.Outcome) {
 		rb := vh.RefBody(b)
 		jobs = append(jobs, job{v, rb, vh.RefDigest(rb)})
 	}
-	errs := make(chan string, len(jobs))
-	done := make(chan struct{})
+	errs := make(chan string, 2*len(jobs))
+	done := make(chan struct{}, len(jobs))
 	for i := range jobs {
 		go func(j job) {
-			defer func() { done <- struct{}{} }()
+			defer func() {
+				if r := recover(); r != nil {
+					select {
+					case errs <- fmt.Sprintf("a panic (%v) instead of SigningMsg/Marshal", r):
+					default:
+					}
+				}
+				done <- struct{}{}
+			}()
 			for r := 0; r < c.Rounds; r++ {
 				if got := j.v.SigningMsg(); [32]byte(got) != j.want {
 					select {
@@ -237,13 +245,26 @@ func runC04Par(c c04ParCase) (*vh.Violation, vh.Outcome) {
 			}
 		}(jobs[i])
 	}
+	// The work is a few hash computations. A worker that has not come back after 20 s is stuck inside the digest
+	// code (shared state left inconsistent by another goroutine), not slow.
+	deadline := time.After(20 * time.Second)
+	stuck := false
+wait:
 	for range jobs {
-		<-done
+		select {
+		case <-done:
+		case <-deadline:
+			stuck = true
+			break wait
+		}
 	}
 	select {
 	case what := <-errs:
 		return vh.V("C04/digest-depends-on-concurrent-use", "%s of a message returned another message's bytes while %d messages were serialised concurrently", what, len(jobs)), o
 	default:
+	}
+	if stuck {
+		return vh.V("C04/digest-depends-on-concurrent-use", "computing digests of %d messages concurrently did not finish within 20 s: a worker is stuck inside SigningMsg/Marshal", len(jobs)), o
 	}
 	return nil, o
 }
